@@ -43,7 +43,7 @@ def respecting(calls):
         name, obj = c[0], c[1]
         if name == "setup":
             live[obj] = True
-        elif name == "finalize":
+        elif name in ("finalize", "drop"):
             live[obj] = False
         elif not live.get(obj, False):
             return False
@@ -104,7 +104,7 @@ def random_history(rng, n_calls, two=False, cfg_ids=("A", "B", "C"), run_ms=(0, 
     for _ in range(n_calls):
         obj = rng.choice(objs)
         if not live.get(obj, False):
-            sym = rng.choice([("setup", rng.choice(cfg_ids))] * 4 + [("finalize",)])
+            sym = rng.choice([("setup", rng.choice(cfg_ids))] * 4 + [("finalize",), ("drop",)])
         else:
             sym = rng.choice([("setup", rng.choice(cfg_ids)), ("iterate",), ("iterate",), ("iterate",),
                               ("iterate_n", rng.choice([0, 1, 2, 3, 5, 50])), ("run", rng.choice(run_ms)),
@@ -120,6 +120,23 @@ def random_history(rng, n_calls, two=False, cfg_ids=("A", "B", "C"), run_ms=(0, 
             for o in objs:
                 live[o] = False
     return calls
+
+
+def handover_histories(kinds=KINDS):
+    """One engine object is finished (and released) before the next one is set up; the old object is let go of at some later
+    point - while the new one is being driven, or after. Letting go of an object is not a call: nothing may happen."""
+    out = []
+    n = 0
+    for k1 in kinds:
+        for k2 in kinds:
+            for where in range(4):
+                calls = [["setup", "e1", "A"], ["iterate_n", "e1", 3], ["get_output", "e1"], ["finalize", "e1"], ["setup", "e2", "B"]]
+                rest = [["iterate", "e2"], ["sample", "e2"], ["iterate_n", "e2", 50], ["get_output", "e2"]]
+                rest.insert(where, ["drop", "e1"])
+                calls += rest + [["finalize", "e2"], ["drop", "e2"], ["setup", "e1", "C"], ["iterate", "e1"], ["get_output", "e1"], ["finalize", "e1"]]
+                out.append(mk_history("ho%d" % n, calls, {"e1": k1, "e2": k2}, cfgs=LC_CFGS))
+                n += 1
+    return out
 
 
 # ------------------------------------------------------------------------------------------
